@@ -1188,6 +1188,10 @@ func j3(w *World, r *Report) {
 			return "DELALL"
 		case sc == "recv.delegateeLedger.DelFinality("+d+".Key())":
 			return "DELD"
+		case callName(c.Common()) == "DelAllStakes":
+			return "DELALL?" + sc // also makes a helper that contains the call expandable
+		case strings.HasPrefix(sc, "recv.delegateeLedger.DelFinality("):
+			return "DELD?" + sc
 		case callName(c.Common()) == "GetNotSignedBlockCount":
 			if sc == wantCnt {
 				return "CNT"
